@@ -128,3 +128,179 @@ Proof.
   - replace (map hgt (map triple xs)) with (map entry_h xs) by (rewrite map_map; reflexivity).
     eapply sub_nodup; [apply sub_map; eassumption | exact ND].
 Qed.
+
+(* ------------------------------------------------------------------------------------ *)
+(* list facts *)
+
+Lemma Forall2_combine_in : forall {A B} (P : A -> B -> Prop) l1 l2 a b,
+  Forall2 P l1 l2 -> In (a, b) (combine l1 l2) -> P a b.
+Proof.
+  induction 1; cbn; intros I; [contradiction|]. destruct I as [I|I]; [inversion I; subst; assumption | auto].
+Qed.
+
+Lemma nodup_fst_filter_combine : forall {A B} (f : A * B -> bool) (l1 : list A) (l2 : list B),
+  NoDup l1 -> NoDup (map fst (filter f (combine l1 l2))).
+Proof.
+  induction l1 as [|a l1 IH]; intros l2 ND; cbn; [constructor|].
+  destruct l2 as [|b l2]; cbn; [constructor|]. inversion ND; subst.
+  destruct (f (a, b)); cbn; [|apply IH; assumption].
+  constructor; [|apply IH; assumption].
+  intro I. apply H1. apply in_map_iff in I. destruct I as ([a' b'] & E & I). cbn in E. subst.
+  apply filter_In in I. destruct I as [I _]. eapply in_combine_l. eassumption.
+Qed.
+
+Lemma filter_combine_length : forall {A B} (f : B -> bool) (l1 : list A) (l2 : list B),
+  List.length l1 = List.length l2 ->
+  List.length (filter (fun p => f (snd p)) (combine l1 l2)) = List.length (filter f l2).
+Proof.
+  induction l1 as [|a l1 IH]; destruct l2 as [|b l2]; cbn; intros E; try discriminate; [reflexivity|].
+  destruct (f b); cbn; rewrite IH by congruence; reflexivity.
+Qed.
+
+Section Sys.
+Variable c : cfg.
+Hypothesis Hq : (c_n c < 2 * c_q c)%nat.
+
+Definition node_at (nodes : list node) (n : nat) (h : N) (b : str) : Prop :=
+  exists nd, nth_error nodes n = Some nd /\ holds nd h b.
+Definition quorum_holds (nodes : list node) (h : N) (b : str) : Prop :=
+  exists ns, NoDup ns /\ (c_q c <= List.length ns)%nat /\ forall n, In n ns -> node_at nodes n h b.
+Definition snap_ok (nodes : list node) (n : nat) (snap : list (N * N * str)) : Prop :=
+  (forall h e d, In (h, e, d) snap -> node_at nodes n h d) /\ NoDup (map hgt snap).
+Definition snap_hash (snap : list (N * N * str)) (h : N) : bool := existsb (fun x => hgt x =? h) snap.
+Definition writes_ok (nodes : list node) (ib : list (nat * reply)) (h : N) (b : str) : Prop :=
+  forall n r, In (n, r) ib -> dec_write (Some r) = WWritten -> node_at nodes n h b.
+Definition reads_ok (nodes : list node) (ib : list (nat * reply)) : Prop :=
+  forall n r items, In (n, r) ib -> dec_entries (Some r) = Some items -> snap_ok nodes n items.
+Definition acc_ok (nodes : list node) (acc : list str) : Prop :=
+  forall b, In b acc -> exists h, quorum_holds nodes h b.
+Definition snaps_ok (nodes : list node) (ns : list nat) (snaps : list (list (N * N * str))) : Prop :=
+  NoDup ns /\ Forall2 (snap_ok nodes) ns snaps.
+Definition pre_ok (nodes : list node) (ns : list nat) (snaps : list (list (N * N * str)))
+           (h : N) (blk : str) (pre : nat) : Prop :=
+  exists ps, NoDup ps /\ (pre <= List.length ps)%nat /\
+    forall n, In n ps -> node_at nodes n h blk /\
+                         exists snap, In (n, snap) (combine ns snaps) /\ snap_hash snap h = true.
+
+Definition phase_ok (nodes : list node) (rp : replica) : Prop :=
+  match r_phase rp with
+  | PPublish blk => writes_ok nodes (r_inbox rp) (r_next rp) blk
+  | PEntries => reads_ok nodes (r_inbox rp)
+  | PRepair snaps it h acc blk pre =>
+      writes_ok nodes (r_inbox rp) h blk /\ acc_ok nodes acc /\
+      exists ns, snaps_ok nodes ns snaps /\ pre_ok nodes ns snaps h blk pre /\
+        (forall n r snap, In (n, r) (r_inbox rp) -> dec_write (Some r) = WWritten ->
+                          In (n, snap) (combine ns snaps) -> snap_hash snap h = false)
+  | _ => True
+  end.
+Definition chain_ok (nodes : list node) (rp : replica) : Prop :=
+  (forall i b, nth_error (r_chain rp) i = Some b -> quorum_holds nodes (N.of_nat i + 1) b) /\
+  r_next rp = N.of_nat (List.length (r_chain rp)) + 1.
+Definition rep_ok (nodes : list node) (rp : replica) : Prop :=
+  chain_ok nodes rp /\ phase_ok nodes rp /\ NoDup (map fst (r_inbox rp)).
+
+(* monotonicity: node streams only grow *)
+Definition ext (nodes nodes' : list node) : Prop :=
+  forall n h b, node_at nodes n h b -> node_at nodes' n h b.
+
+Lemma quorum_mono : forall nodes nodes' h b, ext nodes nodes' -> quorum_holds nodes h b -> quorum_holds nodes' h b.
+Proof. intros nodes nodes' h b E (ns & A & B & C). exists ns. repeat split; auto. Qed.
+Lemma snap_ok_mono : forall nodes nodes' n s, ext nodes nodes' -> snap_ok nodes n s -> snap_ok nodes' n s.
+Proof. intros nodes nodes' n s E [A B]. split; [intros; apply E; eapply A; eassumption | assumption]. Qed.
+Lemma acc_ok_mono : forall nodes nodes' acc, ext nodes nodes' -> acc_ok nodes acc -> acc_ok nodes' acc.
+Proof. intros nodes nodes' acc E A b I. destruct (A b I) as [h Q]. exists h. eapply quorum_mono; eassumption. Qed.
+Lemma snaps_ok_mono : forall nodes nodes' ns snaps, ext nodes nodes' -> snaps_ok nodes ns snaps -> snaps_ok nodes' ns snaps.
+Proof.
+  intros nodes nodes' ns snaps E [A B]. split; [assumption|].
+  induction B; constructor; [eapply snap_ok_mono; eassumption|].
+  apply IHB. inversion A; assumption.
+Qed.
+Lemma pre_ok_mono : forall nodes nodes' ns snaps h blk pre, ext nodes nodes' ->
+  pre_ok nodes ns snaps h blk pre -> pre_ok nodes' ns snaps h blk pre.
+Proof.
+  intros nodes nodes' ns snaps h blk pre E (ps & A & B & C). exists ps. repeat split; auto.
+  - apply E. apply (C n H).
+  - apply (C n H).
+Qed.
+Lemma writes_ok_mono : forall nodes nodes' ib h b, ext nodes nodes' -> writes_ok nodes ib h b -> writes_ok nodes' ib h b.
+Proof. intros nodes nodes' ib h b E W n r I D. apply E. eapply W; eassumption. Qed.
+Lemma reads_ok_mono : forall nodes nodes' ib, ext nodes nodes' -> reads_ok nodes ib -> reads_ok nodes' ib.
+Proof. intros nodes nodes' ib E R n r items I D. eapply snap_ok_mono; [eassumption|]. eapply R; eassumption. Qed.
+
+Lemma phase_ok_mono : forall nodes nodes' rp, ext nodes nodes' -> phase_ok nodes rp -> phase_ok nodes' rp.
+Proof.
+  intros nodes nodes' rp E P. unfold phase_ok in *. destruct (r_phase rp); auto.
+  - eapply reads_ok_mono; eassumption.
+  - destruct P as (A & B & ns & C & D & F). split; [eapply writes_ok_mono; eassumption|].
+    split; [eapply acc_ok_mono; eassumption|]. exists ns.
+    split; [eapply snaps_ok_mono; eassumption|]. split; [eapply pre_ok_mono; eassumption | assumption].
+  - eapply writes_ok_mono; eassumption.
+Qed.
+Lemma chain_ok_mono : forall nodes nodes' rp, ext nodes nodes' -> chain_ok nodes rp -> chain_ok nodes' rp.
+Proof. intros nodes nodes' rp E [A B]. split; [intros; eapply quorum_mono; [eassumption|eapply A; eassumption] | assumption]. Qed.
+Lemma rep_ok_mono : forall nodes nodes' rp, ext nodes nodes' -> rep_ok nodes rp -> rep_ok nodes' rp.
+Proof.
+  intros nodes nodes' rp E (A & B & C). split; [eapply chain_ok_mono; eassumption|].
+  split; [eapply phase_ok_mono; eassumption | assumption].
+Qed.
+
+(* the winner of the vote at height h: as many distinct nodes hold it as it has votes *)
+Lemma winner_nodes : forall nodes ns snaps orc h cnt b,
+  snaps_ok nodes ns snaps -> winner orc (tally h snaps) = Some (cnt, b) ->
+  (1 <= cnt)%nat /\ pre_ok nodes ns snaps h b cnt.
+Proof.
+  intros nodes ns snaps orc h cnt b [ND F] W.
+  destruct (winner_in _ _ _ _ W) as [me I].
+  assert (FN : Forall (fun snap => NoDup (map hgt snap)) snaps).
+  { clear -F. induction F; constructor; [apply H | assumption]. }
+  pose proof (tally_bound h snaps b me cnt FN I) as Bd.
+  split; [eapply tally_pos; eassumption|].
+  exists (map fst (filter (fun p => snap_has (snd p) h b) (combine ns snaps))).
+  split; [apply nodup_fst_filter_combine; assumption|].
+  split.
+  - rewrite map_length, (filter_combine_length (fun s => snap_has s h b)).
+    + exact Bd.
+    + clear -F. induction F; cbn; congruence.
+  - intros n In0. apply in_map_iff in In0. destruct In0 as ([n' snap] & E & I0). cbn in E. subst n'.
+    apply filter_In in I0. destruct I0 as [I0 S]. cbn in S.
+    pose proof (Forall2_combine_in _ _ _ _ _ F I0) as [SA _].
+    apply snap_has_in in S. destruct S as [e Ie]. split; [eapply SA; eassumption|].
+    exists snap. split; [assumption|]. unfold snap_hash. apply existsb_exists.
+    exists (h, e, b). split; [assumption|]. cbn. apply N.eqb_refl.
+Qed.
+
+Lemma pre_quorum : forall nodes ns snaps h b cnt,
+  pre_ok nodes ns snaps h b cnt -> (c_q c <= cnt)%nat -> quorum_holds nodes h b.
+Proof.
+  intros nodes ns snaps h b cnt (ps & A & B & C) Q. exists ps. split; [assumption|].
+  split; [lia|]. intros n I. apply (C n I).
+Qed.
+
+Definition rres_ok (nodes : list node) (ns : list nat) (snaps : list (list (N * N * str))) (r : rres) : Prop :=
+  match r with
+  | RDone acc' => acc_ok nodes acc'
+  | RErrC _ => True
+  | RNeed it h' acc' blk pre => acc_ok nodes acc' /\ (1 <= pre)%nat /\ pre_ok nodes ns snaps h' blk pre
+  end.
+
+Lemma acc_ok_snoc : forall nodes acc b h, acc_ok nodes acc -> quorum_holds nodes h b -> acc_ok nodes (acc ++ [b]).
+Proof.
+  intros nodes acc b h A Q b' I. apply in_app_or in I. destruct I as [I|[<-|[]]]; [apply A; assumption|].
+  exists h. assumption.
+Qed.
+
+Lemma reconcile_sound : forall nodes ns snaps orc, snaps_ok nodes ns snaps ->
+  forall iter h acc, acc_ok nodes acc ->
+  rres_ok nodes ns snaps (reconcile (c_q c) orc snaps iter h acc).
+Proof.
+  intros nodes ns snaps orc SO. induction iter as [|it IH]; intros h acc A; cbn [reconcile]; [exact A|].
+  destruct (Nat.eqb (nodes_with_height h snaps) 0); [destruct acc; [exact Logic.I | exact A]|].
+  destruct (winner orc (tally h snaps)) as [[cnt b]|] eqn:W; [|destruct acc; [exact Logic.I | exact A]].
+  destruct (winner_nodes nodes ns snaps orc h cnt b SO W) as [P1 P].
+  destruct (Nat.leb (c_q c) cnt) eqn:Q.
+  - apply Nat.leb_le in Q. pose proof (pre_quorum _ _ _ _ _ _ P Q) as QH.
+    destruct (h =? u32max); [cbn; eapply acc_ok_snoc; eassumption|].
+    apply IH. eapply acc_ok_snoc; eassumption.
+  - cbn. auto.
+Qed.
+End Sys.
